@@ -222,8 +222,8 @@ def run_history(hist, with_state):
                         if isinstance(key, str) and isinstance(data, bytes):
                             unprot[op[2]].discard(
                                 ref.digest(STORES[op[2]][1], data) + (".dir" if key.endswith(".dir") else ""))
-                            if STORES[op[2]][0] == "local":
-                                unprot[op[1]].discard(key)  # hard-linked: protected together
+                            if STORES[op[2]][0] == "local" and _m == 0o444:
+                                unprot[op[1]].discard(key)  # hard-linked: protected together (copies stay as they were)
                 for s, (kind, hn) in STORES.items():
                     v, _n, snap = audit_store(odbs[s].path, kind, hn, s, unprot[s])
                     viol.extend((sig, f"after step {i} {op} of {hist}: {d}") for sig, d in v)
@@ -241,7 +241,10 @@ def run_history(hist, with_state):
                         if not isinstance(key, str):
                             continue
                         want = ref.digest(STORES[op[2]][1], data) + (".dir" if key.endswith(".dir") else "")
-                        if want not in dsnap or dsnap[want][0] != data:
+                        # (under the legacy algorithm CRLF / LF twins share a name: any bytes with that digest do)
+                        if want not in dsnap or not isinstance(dsnap[want][0], bytes) or (
+                                dsnap[want][0] != data
+                                and ref.digest(STORES[op[2]][1], dsnap[want][0]) != want.split(".")[0]):
                             viol.append(("migrated-object-missing-or-misnamed", f"{key} -> {want}"))
             state_key = []
             for s in STORES:
